@@ -766,6 +766,7 @@ var _ uuid.UUID
 // ---------------------------------------------------------------------------------------------
 // C12: dataset-level batch writes. Items come straight from a decoded request: the only thing assumed about them is that a
 // repeated message field has no nil element (protobuf decoding never produces one); ids, vectors, metadata are arbitrary.
+//@ spec dimItemOK(d *Dataset, it *pb.BatchItem) bool = len(it.Value) % 4294967296 == d.meta.Dimension
 //@ spec noNilItems(items []*pb.BatchItem) bool = forall i int :: 0 <= i && i < len(items) ==> items[i] != nil
 //@ spec wfGroups(d *Dataset, m map[*partition][]*pb.BatchItem) bool = !has(m, nil) && (forall p *partition :: has(m, p) ==> wfPartition(d, p)) && (forall p *partition, i int :: has(m, p) && 0 <= i && i < len(m[p]) ==> m[p][i] != nil)
 
@@ -883,11 +884,22 @@ var _ uuid.UUID
 //@ requires [C12 worker-pre] wfPartition(this, $arg2) && noNilItems($arg3) && $arg4 != nil && $arg6 != nil && $arg7 != nil
 //@ set spawned = spawned + 1
 //@ end
+// content of the merged answer, stated for an arbitrary fixed id (theId): it is reported iff some partition's message reported it,
+// and (ids are routed to one partition, so one message mentions it) with that partition's error value
+//@ ghost theId uuid.UUID = any
+//@ ghost seen int = 0
+//@ ghost lastVal error = nil
 //@ at recv local:resultCh
-//@ assume [protocol: resultCh is unbuffered and closed only after wg.Wait(), i.e. after every worker's single send was received - so each of the first `spawned` receives is a real message] $ok
+//@ assume [protocol: resultCh is unbuffered and closed only after wg.Wait(), i.e. after every worker's single send was received - so each of the first `spawned` receives is a real message; the local map `errors` never escapes, so no worker can send it] $ok && $recv != errors
 //@ set real = real + 1
+//@ set lastVal = ite(has($recv, theId), $recv[theId], lastVal)
+//@ set seen = seen + ite(has($recv, theId), 1, 0)
 //@ end
 //@ ensures [C11 all-partitions-answered] isnil(ret1) ==> real == spawned
+//@ ensures [C11 reported-iff-some-partition-reported] isnil(ret1) ==> has(ret0, theId) == (seen > 0)
+//@ ensures [C11 reported-error-is-the-partitions] isnil(ret1) && seen == 1 ==> ret0[theId] == lastVal
+//@ ensures [C11 error-means-no-map] !isnil(ret1) ==> ret0 == nil
+//@ ensures [own-map] isnil(ret1) ==> fresh(ret0)
 //@ requires [wf] wfDatasetFull(this) && !isnil(ctx) && noNilItems(items) && remoteFn != nil && localFn != nil
 //@ ensures [map-xor-error] isnil(ret1) ==> ret0 != nil
 //@ modifies *
@@ -895,10 +907,15 @@ var _ uuid.UUID
 //@ invariant [groups] wfDataset(this) && wfGroups(this, $map) && remoteFn != nil && localFn != nil
 //@ invariant [C11 spawned] spawned == $count && real == 0
 //@ loop 2
-//@ invariant [count] 0 <= i && i <= len(partitionItems) && errors != nil
+//@ invariant [count] 0 <= i && i <= len(partitionItems) && errors != nil && fresh(errors)
 //@ invariant [C11 consumed] real == i && spawned == len(partitionItems)
+//@ invariant [C11 merged-so-far] seen >= 0 && has(errors, theId) == (seen > 0) && (seen == 1 ==> errors[theId] == lastVal)
 //@ loop 3
-//@ invariant [C11 merging] real == i + 1 && spawned == len(partitionItems) && errors != nil && 0 <= i && i < len(partitionItems)
+//@ invariant [C11 merging] real == i + 1 && spawned == len(partitionItems) && errors != nil && fresh(errors) && errors != $map && 0 <= i && i < len(partitionItems)
+//@ invariant [C11 message-unchanged] forall k uuid.UUID :: has($map, k) == $start[k]
+//@ invariant [C11 merge-visited] seen >= 0 && (has($map, theId) ==> seen >= 1 && lastVal == $map[theId]) && (has($map, theId) && $visited[theId] ==> has(errors, theId) && (seen == 1 ==> errors[theId] == lastVal))
+//@ invariant [C11 merge-pending] has($map, theId) && !$visited[theId] ==> has(errors, theId) == (seen > 1)
+//@ invariant [C11 merge-untouched] !has($map, theId) ==> has(errors, theId) == (seen > 0) && (seen == 1 ==> errors[theId] == lastVal)
 
 // the closures that the batch methods hand to partitionsBatchRequest
 //@ func (*storage.Dataset).BatchInsert$1
@@ -941,26 +958,89 @@ var _ uuid.UUID
 
 // oversized batches are refused before anything else happens; everything else is per-item
 //@ func (*storage.Dataset).BatchInsert
-//@ props C12
+//@ props C12 C11
+//@ ghost fanouts int = 0
+//@ ghost sub map[uuid.UUID]error = nil
+//@ ghost subErr error = nil
+//@ at call partitionsBatchRequest
+//@ requires [C11 only-checked-items-sent] forall j int :: 0 <= j && j < len($arg2) ==> $arg2[j] != nil && dimItemOK(this, $arg2[j])
+//@ requires [C11 every-checked-item-sent] forall i int :: 0 <= i && i < len(items) && dimItemOK(this, items[i]) ==> exists j int :: 0 <= j && j < len($arg2) && $arg2[j] == items[i]
+//@ set fanouts = fanouts + 1
+//@ set sub = $ret0
+//@ set subErr = $ret1
+//@ end
 //@ requires [wf] wfDatasetFull(this) && !isnil(ctx)
 //@ requires [decoded] noNilItems(items)
-//@ ensures [C12 size-cap] len(items) > 1000 ==> ret1 == BatchRequestTooLargerErr
+//@ ensures [C12 size-cap] len(items) > maxBatchRequestSize ==> ret1 == BatchRequestTooLargerErr && ret0 == nil
+//@ ensures [C11 fan-out-error-is-error] fanouts == 1 && !isnil(subErr) ==> ret1 == subErr && ret0 == nil
+//@ ensures [C11 success-only-after-fan-out] isnil(ret1) ==> fanouts == 1 && isnil(subErr) && ret0 != nil
+//@ ensures [C11 partition-errors-reported] isnil(ret1) ==> forall k uuid.UUID :: has(sub, k) ==> has(ret0, k) && ret0[k] == sub[k]
+//@ ensures [C11 dimension-errors-reported] isnil(ret1) ==> forall i int :: 0 <= i && i < len(items) && !old(dimItemOK(this, items[i])) ==> has(ret0, old(itemIdOrNil(items[i]))) && (!has(sub, old(itemIdOrNil(items[i]))) ==> ret0[old(itemIdOrNil(items[i]))] == DimensionMissmatchErr)
+//@ ensures [C11 nothing-else-reported] isnil(ret1) ==> forall k uuid.UUID :: has(ret0, k) && !has(sub, k) ==> ret0[k] == DimensionMissmatchErr
 //@ modifies *
 //@ loop 1
-//@ invariant [checked] wfDatasetFull(this) && errors != nil && noNilItems(checkedItems) && noNilItems(items)
+//@ invariant [checked] wfDatasetFull(this) && errors != nil && fresh(errors) && noNilItems(checkedItems) && noNilItems(items) && fanouts == 0
+//@ invariant [own-list] cap(checkedItems) == 0 || fresh(checkedItems)
+//@ invariant [items-fixed] this.meta == old(this.meta) && this.meta.Dimension == old(this.meta.Dimension) && forall i int :: 0 <= i && i < len(items) ==> items[i] == old(items[i])
+//@ invariant [C11 only-checked] forall j int :: 0 <= j && j < len(checkedItems) ==> dimItemOK(this, checkedItems[j])
+//@ invariant [C11 every-checked] forall i int :: 0 <= i && i <= rangeindex && dimItemOK(this, items[i]) ==> exists j int :: 0 <= j && j < len(checkedItems) && checkedItems[j] == items[i]
+//@ invariant [C11 dimension-errors] forall i int :: 0 <= i && i <= rangeindex && !dimItemOK(this, items[i]) ==> has(errors, itemIdOrNil(items[i])) && errors[itemIdOrNil(items[i])] == DimensionMissmatchErr
+//@ invariant [C11 only-dimension-errors] forall k uuid.UUID :: has(errors, k) ==> errors[k] == DimensionMissmatchErr
+//@ loop 2
+//@ invariant [C11 merge] errors != nil && fresh(errors) && errors != $map && fanouts == 1 && isnil(subErr) && $map == sub && forall k uuid.UUID :: has($map, k) == $start[k]
+//@ invariant [C11 merged] forall k uuid.UUID :: $visited[k] ==> has($map, k) && has(errors, k) && errors[k] == $map[k]
+//@ invariant [C11 rest] forall k uuid.UUID :: has(errors, k) && !$visited[k] ==> errors[k] == DimensionMissmatchErr
+//@ invariant [C11 dimension-kept] forall i int :: 0 <= i && i < len(items) && !old(dimItemOK(this, items[i])) ==> has(errors, old(itemIdOrNil(items[i])))
 //@ func (*storage.Dataset).BatchUpdate
-//@ props C12
+//@ props C12 C11
+//@ ghost fanouts int = 0
+//@ ghost sub map[uuid.UUID]error = nil
+//@ ghost subErr error = nil
+//@ at call partitionsBatchRequest
+//@ requires [C11 only-checked-items-sent] forall j int :: 0 <= j && j < len($arg2) ==> $arg2[j] != nil && dimItemOK(this, $arg2[j])
+//@ requires [C11 every-checked-item-sent] forall i int :: 0 <= i && i < len(items) && dimItemOK(this, items[i]) ==> exists j int :: 0 <= j && j < len($arg2) && $arg2[j] == items[i]
+//@ set fanouts = fanouts + 1
+//@ set sub = $ret0
+//@ set subErr = $ret1
+//@ end
 //@ requires [wf] wfDatasetFull(this) && !isnil(ctx)
 //@ requires [decoded] noNilItems(items)
-//@ ensures [C12 size-cap] len(items) > 1000 ==> ret1 == BatchRequestTooLargerErr
+//@ ensures [C12 size-cap] len(items) > maxBatchRequestSize ==> ret1 == BatchRequestTooLargerErr && ret0 == nil
+//@ ensures [C11 fan-out-error-is-error] fanouts == 1 && !isnil(subErr) ==> ret1 == subErr && ret0 == nil
+//@ ensures [C11 success-only-after-fan-out] isnil(ret1) ==> fanouts == 1 && isnil(subErr) && ret0 != nil
+//@ ensures [C11 partition-errors-reported] isnil(ret1) ==> forall k uuid.UUID :: has(sub, k) ==> has(ret0, k) && ret0[k] == sub[k]
+//@ ensures [C11 dimension-errors-reported] isnil(ret1) ==> forall i int :: 0 <= i && i < len(items) && !old(dimItemOK(this, items[i])) ==> has(ret0, old(itemIdOrNil(items[i]))) && (!has(sub, old(itemIdOrNil(items[i]))) ==> ret0[old(itemIdOrNil(items[i]))] == DimensionMissmatchErr)
+//@ ensures [C11 nothing-else-reported] isnil(ret1) ==> forall k uuid.UUID :: has(ret0, k) && !has(sub, k) ==> ret0[k] == DimensionMissmatchErr
 //@ modifies *
 //@ loop 1
-//@ invariant [checked] wfDatasetFull(this) && errors != nil && noNilItems(checkedItems) && noNilItems(items)
+//@ invariant [checked] wfDatasetFull(this) && errors != nil && fresh(errors) && noNilItems(checkedItems) && noNilItems(items) && fanouts == 0
+//@ invariant [own-list] cap(checkedItems) == 0 || fresh(checkedItems)
+//@ invariant [items-fixed] this.meta == old(this.meta) && this.meta.Dimension == old(this.meta.Dimension) && forall i int :: 0 <= i && i < len(items) ==> items[i] == old(items[i])
+//@ invariant [C11 only-checked] forall j int :: 0 <= j && j < len(checkedItems) ==> dimItemOK(this, checkedItems[j])
+//@ invariant [C11 every-checked] forall i int :: 0 <= i && i <= rangeindex && dimItemOK(this, items[i]) ==> exists j int :: 0 <= j && j < len(checkedItems) && checkedItems[j] == items[i]
+//@ invariant [C11 dimension-errors] forall i int :: 0 <= i && i <= rangeindex && !dimItemOK(this, items[i]) ==> has(errors, itemIdOrNil(items[i])) && errors[itemIdOrNil(items[i])] == DimensionMissmatchErr
+//@ invariant [C11 only-dimension-errors] forall k uuid.UUID :: has(errors, k) ==> errors[k] == DimensionMissmatchErr
+//@ loop 2
+//@ invariant [C11 merge] errors != nil && fresh(errors) && errors != $map && fanouts == 1 && isnil(subErr) && $map == sub && forall k uuid.UUID :: has($map, k) == $start[k]
+//@ invariant [C11 merged] forall k uuid.UUID :: $visited[k] ==> has($map, k) && has(errors, k) && errors[k] == $map[k]
+//@ invariant [C11 rest] forall k uuid.UUID :: has(errors, k) && !$visited[k] ==> errors[k] == DimensionMissmatchErr
+//@ invariant [C11 dimension-kept] forall i int :: 0 <= i && i < len(items) && !old(dimItemOK(this, items[i])) ==> has(errors, old(itemIdOrNil(items[i])))
 //@ func (*storage.Dataset).BatchRemove
-//@ props C12
+//@ props C12 C11
+//@ ghost fanouts int = 0
+//@ ghost sub map[uuid.UUID]error = nil
+//@ ghost subErr error = nil
+//@ ghost passed []*pb.BatchItem = nil
+//@ at call partitionsBatchRequest
+//@ set fanouts = fanouts + 1
+//@ set sub = $ret0
+//@ set subErr = $ret1
+//@ set passed = $arg2
+//@ end
 //@ requires [wf] wfDatasetFull(this) && !isnil(ctx)
 //@ requires [decoded] noNilItems(items)
 //@ ensures [C12 size-cap] len(items) > 1000 ==> ret1 == BatchRequestTooLargerErr
+//@ ensures [C11 answer-is-the-fan-outs] len(items) <= maxBatchRequestSize ==> fanouts == 1 && ret0 == sub && ret1 == subErr && passed == items
 //@ modifies *
 
 //@ func (*storage.Dataset).PartitionBatchInsert
